@@ -2,6 +2,7 @@
 //! on smartcore): routes the `verif-hooks` RNG seam to the explorer's choice recorder, and offers
 //! conversions between plain `Vec<Vec<f64>>` data and the library's matrix types.
 
+pub mod builders;
 pub use mc_core as mc;
 pub use smartcore;
 
